@@ -394,6 +394,7 @@ pub fn pipeline_programs(seed: u64, family: &str, n: usize, emit: &mut dyn FnMut
             5 if r.chance(1, 2) => crate::fam::idiom::near_limit_program(&mut r),
             3 | 4 if r.chance(1, 5) => crate::fam::idiom::near_limit_program(&mut r),
             4 if r.chance(1, 3) => ("30000000,10,50,250,394,0".to_string(), crate::fam::idiom::shared_fields_program(&mut r)),
+            3 if r.chance(1, 4) => ("30000000,10,50,250,394,0".to_string(), crate::fam::idiom::odd_hash_program(&mut r)),
             6 if r.chance(1, 4) => ("30000000,10,50,250,394,0".to_string(), crate::fam::idiom::repeated_motif_program(&mut r)),
             6 if r.chance(1, 2) => ("30000000,10,50,250,394,0".to_string(), crate::fam::idiom::mixed_lookalike_program(&mut r)),
             7 if r.chance(1, 3) => ("30000000,10,50,250,394,0".to_string(), crate::fam::idiom::hashed_literal_program(&mut r)),
@@ -430,6 +431,9 @@ pub fn generate(seed: u64, n: usize, _tier: &str, emit: &mut dyn FnMut(String)) 
     }
     // growth with program length: a chain of loads from loaded words, and a word copied between two
     // slots with a re-load after every copy
+    // a hash over an empty region inside key arithmetic
+    emit("sorted 30000000,10,50,250,394,0 6000600020600101545000".to_string());
+    emit("sorted 30000000,10,50,250,394,0 602a60006000206001015500".to_string());
     emit(format!("natural 30000000,10,50,250,394,0 5f{}5f5500", "54".repeat(40)));
     emit(format!("natural 30000000,10,50,250,394,0 5f{}5f5500", "54".repeat(3000)));
     emit(format!("natural 30000000,10,50,250,394,0 5f54{}5f5500", "6001556001545f555f54".repeat(2400)));
